@@ -275,16 +275,27 @@ func GenWorldOpt(t *rapid.T, maxFiles int, recCombo, http bool) *World {
 
 // GenWorldC10 additionally draws the discriminating layouts of C10: the same
 // relative spelling denoting two different files, and extension shadowing.
-func GenWorldC10(t *rapid.T, maxFiles int) *World { return genWorld(t, maxFiles, false, false, true) }
+func GenWorldC10(t *rapid.T, maxFiles int) *World {
+	comboDefs = false
+	defer func() { comboDefs = true }()
+	return genWorld(t, maxFiles, false, false, true)
+}
 
 // GenWorldMulti biases towards several files with cross-file references (C20).
 func GenWorldMulti(t *rapid.T, maxFiles int) *World {
-	multiBias = true
-	defer func() { multiBias = false }()
+	multiBias, comboDefs = true, false
+	defer func() { multiBias, comboDefs = false, true }()
 	return genWorld(t, maxFiles, false, false, false)
 }
 
 var multiBias bool
+
+// comboDefs is switched off by the C20 and C10 generators: a definition that is
+// itself type:object + allOf and is referenced more than once makes the pinned
+// tree emit its unmarshal methods several times - invalid Go, but a pure function
+// of the single file (C01 territory), which C20's duplicate-declaration clause and
+// C10 would otherwise keep reporting.
+var comboDefs = true
 
 func genWorld(t *rapid.T, maxFiles int, recCombo, http, shadows bool) *World {
 	feat := drawFeat(t)
@@ -577,6 +588,28 @@ func (g *genCtx) genDoc() {
 		xdefs = append(xdefs, name)
 	}
 	_ = xdefs
+	// a definition that is itself an allOf/anyOf of object branches (with required
+	// lists to merge), referenced from several places: the combinator is merged
+	// more than once in a run and must come out the same each time
+	var comboDefRefs []string
+	if comboDefs && (g.feat.AllOf || g.feat.AnyOf) && !isSpecial(f) && g.pct("combodef", 35) {
+		kw := "allOf"
+		if !g.feat.AllOf || (g.feat.AnyOf && g.pct("combodefany", 30)) {
+			kw = "anyOf"
+		}
+		up := strings.ToUpper(f.Tag[:1]) + f.Tag[1:]
+		g.curDef = len(f.Defs) // no branch refs back into marker definitions
+		cd := g.genCombo(kw).(Obj)
+		g.curDef = -1
+		if _, ok := cd.Get("type"); !ok {
+			cd = append(Obj{{"type", "object"}}, cd...)
+		}
+		defs = append(defs, KV{up + "Cd", cd})
+		comboDefRefs = append(comboDefRefs, up+"Cd", up+"Cd")
+		if g.pct("combodef3", 40) {
+			comboDefRefs = append(comboDefRefs, up+"Cd")
+		}
+	}
 	var twinRefs []string
 	var nameClash *RefUse
 	if g.feat.Twins && g.feat.PlainMarkers && !isSpecial(f) && len(f.Defs) > 0 && f.RootObj {
@@ -630,6 +663,18 @@ func (g *genCtx) genDoc() {
 	}
 	if f.RootObj {
 		root := g.genMarkerObject("mk_"+f.Tag, "")
+		if len(comboDefRefs) > 0 {
+			props, _ := root.Get("properties")
+			po := props.(Obj)
+			for i, cr := range comboDefRefs {
+				var v any = Obj{{"$ref", "#/$defs/" + cr}}
+				if i == 1 {
+					v = Obj{{"type", "array"}, {"items", v}}
+				}
+				po = append(po, KV{fmt.Sprintf("%scd%d", f.Tag, i), v})
+			}
+			root = root.Set("properties", po)
+		}
 		if nameClash != nil {
 			props, _ := root.Get("properties")
 			root = root.Set("properties", append(props.(Obj), KV{nameClash.Prop, Obj{{"$ref", nameClash.Ref}}}))
